@@ -5,8 +5,8 @@ from harness.core import tb
 from harness.gen import systems
 from harness.props import _shared, c03
 
-PROOF_MODULE = ["OdeVerif.Proofs.C02", "OdeVerif.Proofs.C03", "OdeVerif.Proofs.C04b", "OdeVerif.Proofs.RefineGraph", "OdeVerif.Proofs.PipelineGraph", "OdeVerif.Proofs.RefineDemote", "OdeVerif.Proofs.RefineSplit", "OdeVerif.Proofs.RefineShapesPass"]
-GENERATED = ['PyGraph', 'PyDemote', 'PySplit', "PyShapesPass"]
+PROOF_MODULE = ["OdeVerif.Proofs.C02", "OdeVerif.Proofs.C03", "OdeVerif.Proofs.C04b", "OdeVerif.Proofs.RefineGraph", "OdeVerif.Proofs.PipelineGraph", "OdeVerif.Proofs.RefineDemote", "OdeVerif.Proofs.RefineSplit", "OdeVerif.Proofs.RefineShapesPass", "OdeVerif.Proofs.RefineContracts"]
+GENERATED = ['PyGraph', 'PyDemote', 'PySplit', "PyShapesPass", "PyContracts"]
 THEOREMS = ["OdeVerif.C02.classify_complete_lin", "OdeVerif.C02.classify_complete_const", "OdeVerif.C02.canonical_linear_no_nonlin",
             "OdeVerif.C02.parameterSymbols_spec", "OdeVerif.C02.analytic_sound_coeffs",
             "OdeVerif.C03.tractable_recognised", "OdeVerif.C03.propagate_greatest", "OdeVerif.C03.verdict_perm_invariant",
@@ -15,7 +15,8 @@ THEOREMS = ["OdeVerif.C02.classify_complete_lin", "OdeVerif.C02.classify_complet
             "OdeVerif.PipelineSpec.collect_sound", "OdeVerif.PipelineSpec.analyse_spelling_invariant",
             "OdeVerif.Refine.demote_eligible", "OdeVerif.Refine.findAnalytic_refines",
             "OdeVerif.Refine.splitLinInhomNonlin_refines", "OdeVerif.Refine.splitLinInhomNonlin_lin_index",
-            "OdeVerif.Refine.fromJsonToShapes_keys", "OdeVerif.Refine.fromJsonToShapes_var_not_param", "OdeVerif.Refine.fromJsonToShapes_shapes"]
+            "OdeVerif.Refine.fromJsonToShapes_keys", "OdeVerif.Refine.fromJsonToShapes_var_not_param", "OdeVerif.Refine.fromJsonToShapes_shapes",
+            "OdeVerif.Refine.isZero_refines", "OdeVerif.Refine.isConstantTerm_refines", "OdeVerif.Refine.isConstantTerm_of_closed"]
 LEVEL = "proof"
 STYLES = ["expanded", "factored", "nested", "floats", "shuffled", "expanded"]
 
